@@ -1,4 +1,4 @@
-import Proofs.SubmitReach
+import Proofs.SubmitLive
 
 /-!
 # C07 — the DA-included (final) height is sound, monotone, durable and eventually reached
@@ -80,16 +80,19 @@ theorem C07_eventually (a : ANode) (h : Nat)
 
 /-! ## with C06: a reported height is on the DA layer; every interleaving -/
 
-/-- **Every interleaving** of block production (any sequencer / execution response), header submission and data
-submission (any DA answer list each) and inclusion passes, from a fresh start, preserves: the DA-included height is at
-most the chain height; every mark `key ↦ dh` is the header hash (resp. data commitment) of a stored block whose header
-(resp. signed data) blob the DA double holds **at exactly the DA height `dh`**; and **every reported height
-`initialHeight ≤ h ≤ daInc` is a stored block for which the DA double holds the header blob of a stored block with that header
-hash, and — unless the data commitment is the empty one — the signed-data blob of a stored non-empty block with that
-data commitment** (`HdrOnDA`, `DataOnDA`; "with that hash / commitment" because marks are keyed by hash / commitment). -/
-theorem C07_sound_every_interleaving (c : Cfg) (hpos : 1 ≤ c.initialHeight) (acts : List Act) :
-    let a := runA c (freshA c) acts
-    a.daInc ≤ a.n.store.height ∧
+/-- **Every history**: any list of block production steps (any sequencer / execution response), header submission and
+data submission ticks (any DA answer list each), inclusion passes, **clean restarts, crashes between two actions and
+crashes after any number `k` of the durable writes of the last action** (`ActR.crash k`: inside a production step, between
+two watermark writes, between `rhb/<h>/h`, `rhb/<h>/d` and `d` of an inclusion pass), from a fresh start with any initial
+height ≥ 1, preserves: the DA-included height is at least `initialHeight − 1` and at most the chain height; every mark
+`key ↦ dh` is the header hash (resp. data commitment) of a stored block whose header (resp. signed data) blob the DA
+double holds **at exactly the DA height `dh`**; and **every reported height `initialHeight ≤ h ≤ daInc` is a stored block
+for which the DA double holds the header blob of a stored block with that header hash, and — unless the data commitment
+is the empty one — the signed-data blob of a stored non-empty block with that data commitment** (`HdrOnDA`, `DataOnDA`;
+"with that hash / commitment" because marks are keyed by hash / commitment). -/
+theorem C07_sound_every_interleaving (c : Cfg) (hpos : 1 ≤ c.initialHeight) (acts : List ActR) :
+    let a := (runR c (freshC c) acts).a
+    (c.initialHeight - 1 ≤ a.daInc ∧ a.daInc ≤ a.n.store.height) ∧
     (∀ e ∈ a.hMarks, ∃ k b, k ≤ a.n.store.height ∧ a.n.store.getBlock k = some b ∧ b.sh.hdr.hash = e.1 ∧
       (e.2, false, b.sh.hdr.height) ∈ a.daBlobs) ∧
     (∀ e ∈ a.dMarks, ∃ k b, k ≤ a.n.store.height ∧ a.n.store.getBlock k = some b ∧ b.data.daCommitment = e.1 ∧
@@ -97,15 +100,95 @@ theorem C07_sound_every_interleaving (c : Cfg) (hpos : 1 ≤ c.initialHeight) (a
     (∀ h, c.initialHeight ≤ h → h ≤ a.daInc → ∃ b, a.n.store.getBlock h = some b ∧
       (∃ dh, HdrOnDA a b.sh.hdr.hash dh) ∧
       (b.data.daCommitment = emptyDataHash ∨ ∃ dh, DataOnDA a b.data.daCommitment dh)) := by
-  have hg := runA_G (c := c) (a := (freshA c)) (G_fresh c hpos) acts
-  exact ⟨hg.incLe, hg.hM, hg.dM, hg.incSound⟩
+  have r := ((CI_fresh c hpos).run acts).r
+  exact ⟨⟨r.pdw.1, r.g.incLe⟩, r.g.hM, r.g.dM, r.g.incSound⟩
+
+/-- the bounds alone, every history (restarts and crashes at write granularity included) -/
+theorem C07_bounds_every_interleaving (c : Cfg) (hpos : 1 ≤ c.initialHeight) (acts : List ActR) :
+    c.initialHeight - 1 ≤ (runR c (freshC c) acts).a.daInc ∧
+    (runR c (freshC c) acts).a.daInc ≤ (runR c (freshC c) acts).a.n.store.height :=
+  (C07_sound_every_interleaving c hpos acts).1
+
+/-- **no restart ever fails, and what a restart reports never exceeds what the node reported**: at the end of every history,
+a clean restart, a crash between two actions, or a crash after any number `k` of the durable writes of the last action
+yields a node whose DA-included height is at most the one the node reported (and all of the above holds of it again) -/
+theorem C07_restart_never_reports_more (c : Cfg) (hpos : 1 ≤ c.initialHeight) (acts : List ActR) :
+    let σ := runR c (freshC c) acts
+    (∀ clean, ∃ a', restart c σ.a σ.a.n.store clean = some a' ∧ a'.daInc ≤ σ.a.daInc ∧ a'.finals = σ.a.finals) ∧
+    (∀ k, ∃ a', restart c σ.a (σ.base.applyPrefix k σ.ws) false = some a' ∧ a'.daInc ≤ σ.a.daInc ∧
+      a'.finals = σ.a.finals) := by
+  intro σ
+  have ci := (CI_fresh c hpos).run acts
+  refine ⟨fun clean => ?_, fun k => ?_⟩
+  · obtain ⟨a', h, _, f⟩ := ci.r.restart clean
+    exact ⟨a', h, by rw [f.daInc]; exact ci.r.pdw.2, f.finals⟩
+  · obtain ⟨a', h, _, f⟩ := ci.cuts k
+    exact ⟨a', h, f.incLe, f.finals⟩
 
 /-- the same invariant is preserved by every single action from any node that satisfies it -/
 theorem C07_invariant_step {c : Cfg} {a : ANode} (g : G c a) (act : Act) : G c (stepA c a act) := stepA_G g act
 
-/-- along every interleaving the DA-included height never decreases, and it changes only in inclusion passes -/
-theorem C07_monotone_every_interleaving (c : Cfg) (a : ANode) (acts : List Act) :
+/-- along every list of actions, from any node, the DA-included height never decreases, and it changes only in inclusion
+passes -/
+theorem C07_monotone_actions (c : Cfg) (a : ANode) (acts : List Act) :
     a.daInc ≤ (runA c a acts).daInc := runA_mono c a acts
+
+/-- **Monotone and durable along every history** (restarts and crashes at write granularity included) whose DA-included
+heights stay below 2^64 (`Bounded`: the value is a `uint64`, stored in eight bytes).  At the end of such a history:
+the persisted `d` is the value in memory — or nothing is persisted and the value is `initialHeight − 1` —; and for the
+next step: an action never lowers the DA-included height; **a restart (clean, or after a crash between two actions)
+reports exactly the same height**; a crash after `k` durable writes of the last action reports exactly what the image
+holds under `d` (raised to `initialHeight − 1`), which is at most what the node reported; and
+(`C07_crash_inside_action`) at least what it reported before that action. -/
+theorem C07_monotone_every_interleaving (c : Cfg) (hpos : 1 ≤ c.initialHeight) (acts : List ActR)
+    (hb : Bounded c (freshC c) acts) (hlast : (runR c (freshC c) acts).a.daInc < 2 ^ 64) :
+    let σ := runR c (freshC c) acts
+    (σ.a.n.store.getMeta daIncKey = some (le64 σ.a.daInc) ∨
+      (σ.a.n.store.getMeta daIncKey = none ∧ σ.a.daInc = c.initialHeight - 1)) ∧
+    (∀ x, σ.a.daInc ≤ (stepR c σ (.act x)).a.daInc) ∧
+    (∀ clean, (stepR c σ (.restart clean)).a.daInc = σ.a.daInc) ∧
+    (∀ k, (stepR c σ (.crash k)).a.daInc = loadInc c (σ.base.applyPrefix k σ.ws) ∧
+      (stepR c σ (.crash k)).a.daInc ≤ σ.a.daInc) := by
+  intro σ
+  have cs := (CS_fresh c hpos).run acts hb
+  exact ⟨cs.pdi.2, cs.mono_step hlast⟩
+
+/-- **a crash inside an action never lowers the DA-included height**: after any bounded history, an action `x` followed
+by a crash after `k` of its durable writes yields a node that reports a height between the one reported before `x` and
+the one `x` reported -/
+theorem C07_crash_inside_action (c : Cfg) (hpos : 1 ≤ c.initialHeight) (acts : List ActR)
+    (hb : Bounded c (freshC c) acts) (x : Act) (k : Nat)
+    (hlast : (stepA c (runR c (freshC c) acts).a x).daInc < 2 ^ 64) :
+    let σ := runR c (freshC c) acts
+    σ.a.daInc ≤ (stepR c (stepR c σ (.act x)) (.crash k)).a.daInc ∧
+    (stepR c (stepR c σ (.act x)) (.crash k)).a.daInc ≤ (stepA c σ.a x).daInc := by
+  intro σ
+  have cs := (CS_fresh c hpos).run acts hb
+  obtain ⟨h1, h2, _⟩ := cs.crash_inside x k hlast
+  exact ⟨h1, h2⟩
+
+/-- **reported only after durable; finalized before reported — at write granularity.**  An inclusion pass issues, per
+height it advances to, the durable writes `rhb/<h>/h`, `rhb/<h>/d`, `d ↦ h` — after `SetFinal(h)` on the execution layer
+— and only then changes the height it reports (`includerPass` with fuel `j` is the pass stopped after `j` advances;
+`C07_pass_invariant` holds for every fuel: whenever the pass holds a height in memory, it is the head of the `SetFinal` log
+and `d` holds it durably).  **If the process dies after `k` durable writes of the pass, the restarted node reports exactly
+the height the pass reported at that instant** (the pass stopped after `k / 3` advances): never a height whose `d` write
+was not durable, never less than what had been reported, and always a height the execution layer was asked to finalize. -/
+theorem C07_reported_after_durable (c : Cfg) (hpos : 1 ≤ c.initialHeight) (acts : List ActR)
+    (hb : Bounded c (freshC c) acts) (k : Nat)
+    (hlast : (includerIter (runR c (freshC c) acts).a).1.daInc < 2 ^ 64)
+    (hk : k ≤ (includerIter (runR c (freshC c) acts).a).2.length) :
+    let σ := runR c (freshC c) acts
+    (stepR c (stepR c σ (.act .incl)) (.crash k)).a.daInc = (includerPass (k / 3) σ.a []).1.daInc ∧
+    (σ.a.daInc < (includerPass (k / 3) σ.a []).1.daInc →
+      (includerPass (k / 3) σ.a []).1.finals.head? = some (includerPass (k / 3) σ.a []).1.daInc) := by
+  intro σ
+  have cs := (CS_fresh c hpos).run acts hb
+  have hx : (stepA c σ.a .incl).daInc < 2 ^ 64 := hlast
+  obtain ⟨_, _, e⟩ := cs.crash_inside .incl k hx
+  refine ⟨?_, fun hadv => ?_⟩
+  · rw [e]; exact incl_cut_exact cs.pdi cs.r.g.incLe hlast k hk
+  · exact ((includerPass_inv (k / 3) σ.a σ.a [] (PassInv.init σ.a)).persisted hadv).2
 
 /-! ## restart -/
 
@@ -124,25 +207,17 @@ theorem C07_eventually_after_clean_restart {c : Cfg} {a a' : ANode} (h : Nat)
   obtain ⟨r1, b, r2, r3, r4⟩ := hm k k1 k2
   exact ⟨Nat.le_trans r1 hht, b, by rw [hblk]; exact r2, by rw [hM]; exact r3, by rw [hD]; exact r4⟩
 
-/-- **Durable; never decreases across a restart.**  At every point of every interleaving from a fresh start (any initial
-height ≥ 1), the DA-included height is the persisted one — or nothing is persisted yet and it is `initialHeight − 1` —, and
-a restart on the node's image, after a clean stop or a crash between two actions, succeeds and **reports exactly the
-height the node reported before it** (below 2^64: the value is stored in eight bytes), which is still at most the chain
-height. -/
-theorem C07_restart_keeps_da_included (c : Cfg) (hpos : 1 ≤ c.initialHeight) (acts : List Act) (clean : Bool)
-    (hb : (runA c (freshA c) acts).daInc < 2 ^ 64) :
-    ((runA c (freshA c) acts).n.store.getMeta daIncKey = some (le64 (runA c (freshA c) acts).daInc) ∨
-     ((runA c (freshA c) acts).n.store.getMeta daIncKey = none ∧
-      (runA c (freshA c) acts).daInc = c.initialHeight - 1)) ∧
-    ∃ a', restart c (runA c (freshA c) acts) (runA c (freshA c) acts).n.store clean = some a' ∧
-      a'.daInc = (runA c (freshA c) acts).daInc ∧ a'.daInc ≤ a'.n.store.height := by
-  have r : R c (runA c (freshA c) acts) := by
-    rw [← runR_act]; exact (R_fresh c hpos).run _
-  have p : PDI c (runA c (freshA c) acts) := (PDI_fresh c).run (R_fresh c hpos) acts
-  obtain ⟨a', hr, _, _, _, hh, _⟩ := r.restart clean
-  obtain ⟨e, _⟩ := p.restart hr hb
-  have hle := (runA_G (G_fresh c hpos) acts).incLe
-  exact ⟨p.2, a', hr, e, by rw [e]; exact Nat.le_trans hle hh⟩
+/-- **Durable; never decreases across a restart** (corollary of `C07_monotone_every_interleaving`): at the end of every
+bounded history a restart on the node's image, after a clean stop or a crash between two actions, succeeds and reports
+exactly the height the node reported before it, which is still at most the chain height. -/
+theorem C07_restart_keeps_da_included (c : Cfg) (hpos : 1 ≤ c.initialHeight) (acts : List ActR) (clean : Bool)
+    (hb : Bounded c (freshC c) acts) (hlast : (runR c (freshC c) acts).a.daInc < 2 ^ 64) :
+    ∃ a', restart c (runR c (freshC c) acts).a (runR c (freshC c) acts).a.n.store clean = some a' ∧
+      a'.daInc = (runR c (freshC c) acts).a.daInc ∧ a'.daInc ≤ a'.n.store.height := by
+  have cs := (CS_fresh c hpos).run acts hb
+  obtain ⟨a', hr, r', _⟩ := cs.r.restart clean
+  obtain ⟨e, _⟩ := cs.pdi.restart hr hlast
+  exact ⟨a', hr, e, r'.g.incLe⟩
 
 /-- the block at `h` is stored and the DA double holds its header blob and (unless empty) its data blob -/
 def onDA (a : ANode) (h : Nat) : Bool :=
@@ -237,6 +312,53 @@ theorem C07_eventually_after_crash_fails : ¬ C07_eventually_after_crash_full :=
   rw [(hstay _).2] at this
   omega
 
+/-! ## end to end: with a DA layer that accepts, the DA-included height reaches the chain height -/
+
+/-- **Eventually, end to end — no hypothesis on marks or DA content.**  For every initial height ≥ 1 and every history
+without a crash (`CrashFree`: production, submission ticks with any DA answers — outages, partial acceptance, lost
+acknowledgements, cancellations —, inclusion passes, clean restarts), once the DA layer accepts (after fewer than 30
+non-cancellation failures per tick): one header tick, one data tick, one more data tick (any answers) and one inclusion
+pass end with **DA-included height = chain height**; the chain height is unchanged.  (The invariant behind it, `MK`: in
+such a history every committed height at or below a watermark still has its mark — in memory, or reloaded from the cache
+files by a clean restart.  After a crash the marks are gone while the watermarks are not: `C07_eventually_after_crash_fails`.) -/
+theorem C07_eventually_end_to_end (c : Cfg) (hpos : 1 ≤ c.initialHeight) (acts : List ActR) (hcf : CrashFree acts)
+    (fh th fd td s2 : List DAAns)
+    (hth : th.headD (.ok none) = .ok none) (hnh : DAAns.canceled ∉ fh) (hfh : fh.length < maxSubmitAttempts)
+    (htd : td.headD (.ok none) = .ok none) (hnd : DAAns.canceled ∉ fd) (hfd : fd.length < maxSubmitAttempts) :
+    let a := (runR c (freshC c) acts).a
+    (runOps a [.subH (fh ++ th), .subD (fd ++ td), .subD s2, .incl]).daInc = a.n.store.height ∧
+    (runOps a [.subH (fh ++ th), .subD (fd ++ td), .subD s2, .incl]).n.store.height = a.n.store.height := by
+  intro a
+  have ci := (CI_fresh c hpos).run acts
+  have m : MK c a := (MK_fresh c hpos).run (CI_fresh c hpos) acts hcf
+  exact eventually_four_ticks ci.r m fh th fd td s2 hth hnh hfh htd hnd hfd
+
+/-- the positive counterpart of the refuted `C07_eventually_after_crash_full`: the same statement with a **clean** restart
+(and the tick list that the repaired data loop needs: two data ticks) -/
+def C07_eventually_after_clean_restart_full : Prop :=
+  ∀ (c : Cfg) (acts : List ActR) (a' : ANode), 1 ≤ c.initialHeight → CrashFree acts →
+    restart c (runR c (freshC c) acts).a (runR c (freshC c) acts).a.n.store true = some a' →
+    (runOps a' [.subH [], .subD [], .subD [], .incl]).daInc = a'.n.store.height
+
+theorem C07_eventually_after_clean_restart_holds : C07_eventually_after_clean_restart_full := by
+  intro c acts a' hpos hcf hr
+  have hcf' : CrashFree (acts ++ [.restart true]) := by
+    intro x hx
+    rcases List.mem_append.mp hx with h | h
+    · exact hcf x h
+    · right; simpa using h
+  have h := (C07_eventually_end_to_end c hpos (acts ++ [.restart true]) hcf' [] [] [] [] [] rfl (by simp) (by decide) rfl
+    (by simp) (by decide)).1
+  have e : (runR c (freshC c) (acts ++ [.restart true])).a = a' := by
+    show (List.foldl (stepR c) (freshC c) (acts ++ [.restart true])).a = a'
+    rw [List.foldl_append]
+    show (match Submit.restart c (runR c (freshC c) acts).a (runR c (freshC c) acts).a.n.store true with
+      | some a' => (⟨a', (runR c (freshC c) acts).a.n.store, []⟩ : CSt)
+      | none => runR c (freshC c) acts).a = a'
+    rw [hr]
+  rw [e] at h
+  exact h
+
 /-- the general reason: a node with nothing pending and no mark for the next block never changes again -/
 theorem C07_idle_for_ever {a : ANode} (h1 : a.n.store.height = a.n.hdrWm)
     (h2 : a.n.store.height = a.n.dataWm)
@@ -256,24 +378,17 @@ theorem C07_eventually_partial {c : Cfg} {a a' : ANode} (h : Nat)
 
 /-! ## every initial height ≥ 1 -/
 
-/-- the DA-included height of a node reached from a fresh start is at least `initialHeight − 1` (where `NewManager`
-starts it: heights below the initial height do not exist and need no inclusion) and at most the chain height -/
-theorem C07_bounds_every_interleaving (c : Cfg) (hpos : 1 ≤ c.initialHeight) (acts : List Act) :
-    c.initialHeight - 1 ≤ (runA c (freshA c) acts).daInc ∧
-    (runA c (freshA c) acts).daInc ≤ (runA c (freshA c) acts).n.store.height :=
-  ⟨runA_mono c (freshA c) acts, (runA_G (G_fresh c hpos) acts).incLe⟩
-
-/-- "eventually" for every initial height ≥ 1: on a node reached from a fresh start, if every committed
-height `initialHeight ≤ k ≤ h` is stored with its header hash marked and its data commitment empty or marked, one
-iteration of the inclusion loop reports `≥ h` -/
+/-- "eventually" for every initial height ≥ 1: on a node reached from a fresh start by any history (restarts and crashes
+at write granularity included), if every committed height `initialHeight ≤ k ≤ h` is stored with its header hash marked and
+its data commitment empty or marked, one iteration of the inclusion loop reports `≥ h` -/
 def C07_eventually_initial_height_full : Prop :=
-  ∀ (c : Cfg) (acts : List Act) (h : Nat), 1 ≤ c.initialHeight →
-    (∀ k, c.initialHeight ≤ k → k ≤ h → k ≤ (runA c (freshA c) acts).n.store.height ∧
-      ∃ b, (runA c (freshA c) acts).n.store.getBlock k = some b ∧
-        (markOf (runA c (freshA c) acts).hMarks b.sh.hdr.hash).isSome ∧
+  ∀ (c : Cfg) (acts : List ActR) (h : Nat), 1 ≤ c.initialHeight →
+    (∀ k, c.initialHeight ≤ k → k ≤ h → k ≤ (runR c (freshC c) acts).a.n.store.height ∧
+      ∃ b, (runR c (freshC c) acts).a.n.store.getBlock k = some b ∧
+        (markOf (runR c (freshC c) acts).a.hMarks b.sh.hdr.hash).isSome ∧
         (b.data.daCommitment = emptyDataHash ∨
-          (markOf (runA c (freshA c) acts).dMarks b.data.daCommitment).isSome)) →
-    h ≤ (includerIter (runA c (freshA c) acts)).1.daInc
+          (markOf (runR c (freshC c) acts).a.dMarks b.data.daCommitment).isSome)) →
+    h ≤ (includerIter (runR c (freshC c) acts).a).1.daInc
 
 /-- **it holds** (until /repo 81db44d `daIncludedHeight` started at 0, the inclusion loop asked for block 1, which does
 not exist on a chain with initial height > 1, and the DA-included height never left 0: finding
@@ -342,6 +457,16 @@ def yMixed : ANode := runA yCfg (freshA yCfg)
 /-- … then submit data and include: reported, finalized in order -/
 example : yMixed.daInc = 1 ∧ (runA yCfg yMixed [.subD [], .incl]).daInc = 2 ∧
     (runA yCfg yMixed [.subD [], .incl]).finals = [2, 1] := by
+  decide +kernel
+
+/-- a crash at every write boundary of an inclusion pass (three blocks, nine durable writes: `rhb/h`, `rhb/d`, `d` per
+height): the restarted node reports 0, 0, 0, 1, 1, 1, 2, 2, 2, 3 — the `d` writes that became durable —, the execution
+layer had been asked to finalize 1, 2, 3 before, the marks are gone -/
+example : (List.range 10).map (fun k =>
+      (stepR yCfg (stepR yCfg ⟨ySubmitted, ySubmitted.n.store, []⟩ (.act .incl)) (.crash k)).a.daInc) =
+      [0, 0, 0, 1, 1, 1, 2, 2, 2, 3] ∧
+    (stepR yCfg (stepR yCfg ⟨ySubmitted, ySubmitted.n.store, []⟩ (.act .incl)) (.crash 4)).a.finals = [3, 2, 1] ∧
+    (stepR yCfg (stepR yCfg ⟨ySubmitted, ySubmitted.n.store, []⟩ (.act .incl)) (.crash 4)).a.hMarks = [] := by
   decide +kernel
 
 end Spec.C07
